@@ -50,11 +50,20 @@ func regenSpec(ops, defs map[string]bool) obj {
 		"paths": paths, "definitions": d}
 }
 
+// regenLayout is the layout file of docs/reference/templates/template_layout.md ("Server generation"),
+// extracted from the documentation by the caller (-layout)
+var regenLayout string
+
 func genArgs(cmd, opt string) []string {
 	a := []string{"generate", cmd}
 	switch cmd {
 	case "server", "client", "support":
-		a = append(a, "--name", "verif")
+		if opt == "custom_layout" {
+			// the documented invocation: swagger generate server -A TodoList -f ./swagger.json -C default-server.yml
+			a = append(a, "-A", "TodoList", "-C", regenLayout)
+		} else {
+			a = append(a, "--name", "verif")
+		}
 	}
 	switch opt {
 	case "regen_configure":
@@ -272,7 +281,9 @@ func cmdRegenDrive(args []string) error {
 	bin := fs.String("swagger", "", "")
 	work := fs.String("work", "", "")
 	jobs := fs.Int("j", runtime.NumCPU(), "")
+	layout := fs.String("layout", "", "")
 	_ = fs.Parse(args)
+	regenLayout = *layout
 	cases, err := readNDJSON(*casesPath)
 	if err != nil {
 		return err
